@@ -91,3 +91,22 @@ Theorem C20_instruction_growth_paid : forall op s st n fee st',
   mem_after op s (fst st) = Some (fst st') /\ mg_inv st' /\ 3 * (fst st' - fst st) <= 32 * fee.
 Proof. exact instruction_growth_paid. Qed.
 Print Assumptions C20_instruction_growth_paid.
+
+(** inherited copy / hash / log instructions (memoryCopierGas, gasKeccak256, makeGasLog as the code computes them, with their
+    overflow checks): whenever the step is charged at all, the bytes it copies (CALLDATACOPY CODECOPY RETURNDATACOPY MCOPY),
+    hashes (KECCAK256) or logs (LOG0-4) are bounded by a fixed multiple of that charge — for every operand word *)
+Theorem C20_copied_bytes_bounded_by_cost : forall op s st g,
+  (op = 0x37 \/ op = 0x39 \/ op = 0x3e \/ op = 0x5e) -> step_cost op s st = Some g ->
+  back s 2 < two64 /\ 3 * back s 2 <= 32 * g.
+Proof. exact copied_bytes_bounded_by_cost. Qed.
+Print Assumptions C20_copied_bytes_bounded_by_cost.
+
+Theorem C20_hashed_bytes_bounded_by_cost : forall s st g,
+  step_cost 0x20 s st = Some g -> back s 1 < two64 /\ 6 * back s 1 <= 32 * g.
+Proof. exact hashed_bytes_bounded_by_cost. Qed.
+Print Assumptions C20_hashed_bytes_bounded_by_cost.
+
+Theorem C20_logged_bytes_bounded_by_cost : forall op s st g,
+  0xa0 <= op <= 0xa4 -> step_cost op s st = Some g -> 8 * back s 1 <= g /\ 375 * (1 + (op - 0xa0)) <= g.
+Proof. exact logged_bytes_bounded_by_cost. Qed.
+Print Assumptions C20_logged_bytes_bounded_by_cost.
